@@ -28,11 +28,14 @@ CHECKS = {
                  "iteration order of every map range in repository code, and GOMAXPROCS; a fraction of runs re-analyses the file from another directory. Each call's (name, fingerprint, "
                  "canonical IR) list must equal the clean sequential reference. Non-trivial = pooled state reused and (>= 2 tasks or a non-identity map order); distinct = distinct "
                  "(programs, schedule, GOMAXPROCS). The fphistory job lets ONE pooled canonicaliser analyse 2 000-90 000 functions in a row and compares every "
-                 "repetition of a function with its first analysis (prior history of the process). The fpstress job repeats the workload free-running under the race detector."),
+                 "repetition of a function with its first analysis (prior history of the process). The fpfresh job makes one FRESH operating-system process fingerprint a tape-chosen sequence of 2-4 sources that share module path, package path and helper names, "
+                 "and compares every result with a fresh process that analysed only that source (what a process analysed earlier must not matter). "
+                 "The fpstress job repeats the workload free-running under the race detector; a quarter of its runs let every caller analyse its own in-memory revision of one and the same path, all loads starting together."),
         "jobs": [
             {"engine": "fpsim", "bin": "diff", "test": "TestVerifC01", "cfg": {}, "cpu": 4, "weight": 12, "vary": "universe", "witness_sound": True},
             {"engine": "fpsim", "bin": "diff", "test": "TestVerifC01", "cfg": {"universe": "1"}, "cpu": 4, "weight": 2, "witness_sound": True},
             {"engine": "fphistory", "bin": "diff", "test": "TestVerifC01History", "cfg": {}, "cpu": 2, "weight": 2, "max_workers": 2},
+            {"engine": "fpfresh", "bin": "diff", "test": "TestVerifC01Fresh", "cfg": {}, "cpu": 2, "weight": 3, "max_workers": 3},
             {"engine": "fpstress", "bin": "diff_race", "test": "TestVerifC01Stress", "cfg": {}, "race": True, "cpu": 8, "weight": 2},
         ],
         "assumptions": ["map iteration inside dependencies (x/tools SSA builder, go/types) is not steered, only sampled across processes",
@@ -118,13 +121,14 @@ CHECKS = {
                  "structural tokens and 1000-entry batch boundaries otherwise) and injected read errors. jsonsim: one evaluation = an add/get "
                  "history on the JSON store, save/load round trip, then a second SaveDatabase expanded into every file-system operation "
                  "boundary x crash modes (or one injected ENOSPC/EIO). jsonsched: 2-3 writer tasks (single and batch adds with unique or auto IDs) and "
-                 "0-2 reader tasks interleaved by the tape-driven scheduler at every lock operation of the JSON store; every added signature must be fetched back with its own content. migratecli: a history of 2-5 `sfw migrate` invocations (cli.RunMigrate, real temp directory) against ONE destination database with well-formed, truncated, non-JSON, resubmitted-unchanged or repaired-in-place source files; every invocation that reports success must have stored every signature of its source. Non-trivial = at least 2 entries (migrate) / crash enumeration or a fired fault (json); "
+                 "0-2 reader tasks interleaved by the tape-driven scheduler at every lock operation of the JSON store; every added signature must be fetched back with its own content. migratecli: a history of 2-5 `sfw migrate` invocations (cli.RunMigrate, real temp directory) against ONE destination database with well-formed, truncated, non-JSON, resubmitted-unchanged or repaired-in-place source files; every invocation that reports success must have stored every signature of its source. storesim-concurrent (writers only): 2-3 writer tasks on the embedded store interleaved at every lock operation and Pebble call; afterwards every signature must be fetched back, by ID and through every index, with the content of the last committed write. Non-trivial = at least 2 entries (migrate) / crash enumeration or a fired fault (json); "
                  "distinct = distinct input encodings / operation traces."),
         "jobs": [
             {"engine": "storesim-migrate", "bin": "pebbledb", "test": "TestVerifC18Migrate", "cfg": {}, "weight": 3},
             {"engine": "jsonsim", "bin": "jsondb", "test": "TestVerifC18JSON", "cfg": {}, "weight": 1},
             {"engine": "jsonsched", "bin": "jsondb", "test": "TestVerifC18JSONSched", "cfg": {}, "weight": 1},
             {"engine": "migratecli", "bin": "cli", "test": "TestVerifC18CLI", "cfg": {}, "weight": 1, "max_workers": 2},
+            {"engine": "storesim-concurrent", "bin": "pebbledb", "test": "TestVerifC11", "cfg": {"writers_only": "1"}, "weight": 1},
         ],
         "assumptions": ["the old JSON file is durable (its directory synced) before the save that is crashed",
                         "durability of the rename itself is not demanded (C18 speaks of atomic replacement)",
